@@ -202,7 +202,7 @@ pub fn spaces(tier: Tier) -> Vec<Space<'static>> {
 
 pub fn meta(tier: Tier) -> (String, serde_json::Value, Vec<String>) {
     (
-        "every document x every editing call whose arguments are derived from it (all positions -len-2..len+2, all names incl. case variants/prefixes/absent, every key path of length <= depth+1 into and past scalars, insert keys before/between/after/existing x flag, every key subset for delete/pick, 8 second operands), every ordered pair for the binary functions, strip_nulls on the null-rich depth-3 universe, build_array / build_object over every list of <=3 parts in every order with duplicates. Output bytes must equal the model encoder applied to the model edit; documented errors must be returned exactly there with the buffer untouched. Non-trivial = container input with nested/uneven children (pairs: both containers).".into(),
+        "every document x every editing call whose arguments are derived from it (all positions -len-2..len+2, all names incl. case variants/prefixes/absent, every key path of length <= depth+1 into and past scalars, insert keys before/between/after/existing x flag, every key subset for delete/pick, 9 second operands), every ordered pair for the binary functions, strip_nulls on the null-rich depth-3 universe, build_array / build_object over every list of <=3 parts in every order with duplicates. Output bytes must equal the model encoder applied to the model edit; documented errors must be returned exactly there with the buffer untouched. Non-trivial = container input with nested/uneven children (pairs: both containers).".into(),
         json!({"pairs_base": if tier.thorough() {"P5 (26.6M pairs)"} else {"D2 (4.6M pairs)"}, "strip_nulls": if tier.thorough() {"all 998,994 documents of D3"} else {"first 200,000 documents of D3 (simplest first)"}}),
         vec!["array_insert on a non-array treats it as a one-element list (test_array_insert)".into(), "build_object: a later duplicate key replaces an earlier one".into()],
     )
